@@ -3,10 +3,14 @@
    (client.SerializeGCAServerMap / UntrustedDeserializeGCAServerMap).  Definitions only.
    Locations are byte strings (Go strings are arbitrary bytes). *)
 From Coq Require Import ZArith List Bool String.
-From GCA Require Import Bytes Codec.
+From GCA Require Import Bytes Codec CodecStats.
 Import ListNotations.
 Open Scope Z_scope.
 Notation length := List.length.
+
+(* sequential reader: the next n bytes and the rest, or nothing when fewer are left *)
+Definition take (n : nat) (b : bytes) : option (bytes * bytes) :=
+  if (length b <? n)%nat then None else Some (firstn n b, skipn n b).
 
 Definition bool_byte (x : bool) : Byte.byte := if x then Byte.x01 else Byte.x00.
 
@@ -31,20 +35,20 @@ Definition aserver_wf (s : aserver) : Prop :=
    of its own for this structure on the server side; the client's sync parser reads
    the same layout).  Strict: the banned byte must be 0 or 1. *)
 Definition aserver_decode_prefix (b : bytes) : dres aserver :=
-  if (length b <? 34)%nat then DErr else
-  let l := Z.to_nat (le_dec (slice 33 1 b)) in
-  if (length b <? 104 + l)%nat then DErr else
-  match slice 32 1 b with
-  | [fl] =>
-      if Byte.eqb fl Byte.x00 || Byte.eqb fl Byte.x01 then
-        DOk {| as_key := slice 0 32 b; as_banned := Byte.eqb fl Byte.x01;
-               as_loc := slice 34 l b;
-               as_http := le_dec (slice (34 + l) 2 b); as_tcp := le_dec (slice (36 + l) 2 b);
-               as_udp := le_dec (slice (38 + l) 2 b); as_sig := slice (40 + l) 64 b |}
-            (104 + l)
-      else DErr
-  | _ => DErr
-  end.
+  match take 32 b with None => DErr | Some (key, b1) =>
+  match take 1 b1 with None => DErr | Some (fl, b2) =>
+  match take 1 b2 with None => DErr | Some (lb, b3) =>
+  let l := Z.to_nat (le_dec lb) in
+  match take l b3 with None => DErr | Some (loc, b4) =>
+  match take 2 b4 with None => DErr | Some (h, b5) =>
+  match take 2 b5 with None => DErr | Some (t, b6) =>
+  match take 2 b6 with None => DErr | Some (u, b7) =>
+  match take 64 b7 with None => DErr | Some (sg, _) =>
+  if bytes_eqb fl [Byte.x00] || bytes_eqb fl [Byte.x01] then
+    DOk {| as_key := key; as_banned := bytes_eqb fl [Byte.x01]; as_loc := loc;
+           as_http := le_dec h; as_tcp := le_dec t; as_udp := le_dec u; as_sig := sg |} (104 + l)
+  else DErr
+  end end end end end end end end.
 (* a whole buffer holding exactly one record *)
 Definition aserver_decode (b : bytes) : option aserver :=
   match aserver_decode_prefix b with
@@ -85,13 +89,14 @@ Fixpoint aservers_decode (fuel : nat) (b : bytes) : dres (list aserver * bytes) 
       end
   end.
 Definition migration_decode (b : bytes) : dres migration :=
-  if (length b <? 68 + 64)%nat then DErr else
-  match aservers_decode (S (length b)) (skipn 68 b) with
+  match take 32 b with None => DErr | Some (eq, b1) =>
+  match take 32 b1 with None => DErr | Some (gca, b2) =>
+  match take 4 b2 with None => DErr | Some (id, b3) =>
+  match aservers_decode (S (length b3)) b3 with
   | DOk (l, sg) n =>
-      DOk {| m_equip := slice 0 32 b; m_newgca := slice 32 32 b; m_newid := le_dec (slice 64 4 b);
-             m_servers := l; m_sig := sg |} (length b)
+      DOk {| m_equip := eq; m_newgca := gca; m_newid := le_dec id; m_servers := l; m_sig := sg |} (length b)
   | DErr => DErr | DFatal => DFatal | DFuel => DFuel
-  end.
+  end end end end.
 
 (* ---- the client's server map (gcaServers.dat) --------------------------------- *)
 Record cserver := { cs_banned : bool; cs_loc : bytes; cs_http : Z; cs_tcp : Z; cs_udp : Z }.
@@ -116,21 +121,20 @@ Definition centry_wf (e : centry) : Prop :=
   0 <= cs_http (snd e) < 2^16 /\ 0 <= cs_tcp (snd e) < 2^16 /\ 0 <= cs_udp (snd e) < 2^16.
 
 (* one entry at the head of a non-empty input, as UntrustedDeserializeGCAServerMap reads
-   it (any non-zero banned byte means banned) *)
+   it with a bytes.Reader (any non-zero banned byte means banned; every shortage is an
+   error) *)
 Definition centry_decode_prefix (b : bytes) : dres centry :=
-  if (length b <? 32)%nat then DErr else
-  match slice 32 1 b with
-  | [fl] =>
-      if (length b <? 35)%nat then DErr else
-      let l := Z.to_nat (le_dec (slice 33 2 b)) in
-      if (length b <? 35 + l)%nat then DErr else
-      if (length b <? 35 + l + 6)%nat then DErr else
-      DOk (slice 0 32 b,
-           {| cs_banned := negb (Byte.eqb fl Byte.x00); cs_loc := slice 35 l b;
-              cs_http := le_dec (slice (35 + l) 2 b); cs_tcp := le_dec (slice (37 + l) 2 b);
-              cs_udp := le_dec (slice (39 + l) 2 b) |}) (41 + l)
-  | _ => DErr
-  end.
+  match take 32 b with None => DErr | Some (key, b1) =>
+  match take 1 b1 with None => DErr | Some (fl, b2) =>
+  match take 2 b2 with None => DErr | Some (ln, b3) =>
+  let l := Z.to_nat (le_dec ln) in
+  match take l b3 with None => DErr | Some (loc, b4) =>
+  match take 2 b4 with None => DErr | Some (h, b5) =>
+  match take 2 b5 with None => DErr | Some (t, b6) =>
+  match take 2 b6 with None => DErr | Some (u, _) =>
+  DOk (key, {| cs_banned := negb (bytes_eqb fl [Byte.x00]); cs_loc := loc;
+               cs_http := le_dec h; cs_tcp := le_dec t; cs_udp := le_dec u |}) (41 + l)
+  end end end end end end end.
 (* the entries in file order *)
 Fixpoint smap_decode_list (fuel : nat) (b : bytes) : dres (list centry) :=
   match fuel with
@@ -160,4 +164,52 @@ Fixpoint smap_lookup (k : bytes) (l : list centry) : option cserver :=
       | Some v' => Some v'
       | None => if bytes_eqb k k' then Some v else None
       end
+  end.
+
+(* ---- the six signed message types ------------------------------------------------------ *)
+Inductive msg :=
+| MReport (r : report)
+| MAuth (a : auth)
+| MMigration (m : migration)
+| MServer (s : aserver)
+| MStats (x : all_stats)
+| MReg (gcakey : bytes).
+
+Definition msg_signing_bytes (m : msg) : bytes :=
+  match m with
+  | MReport r => report_signing_bytes r
+  | MAuth a => auth_signing_bytes a
+  | MMigration g => migration_signing_bytes g
+  | MServer s => aserver_signing_bytes s
+  | MStats x => stats_signing_bytes x
+  | MReg k => reg_signing_bytes k
+  end.
+Definition msg_type (m : msg) : nat :=
+  match m with MReport _ => 0 | MAuth _ => 1 | MMigration _ => 2 | MServer _ => 3 | MStats _ => 4 | MReg _ => 5 end%nat.
+Definition msg_wf (m : msg) : Prop :=
+  match m with
+  | MReport r => report_wf r
+  | MAuth a => auth_wf a
+  | MMigration g => migration_wf g
+  | MServer s => aserver_wf s
+  | MStats x => stats_wf x
+  | MReg k => reg_wf k
+  end.
+(* equality of everything the signature covers *)
+Definition msg_same_signed (m1 m2 : msg) : Prop :=
+  match m1, m2 with
+  | MReport r1, MReport r2 => r_id r1 = r_id r2 /\ r_ts r1 = r_ts r2 /\ r_p r1 = r_p r2
+  | MAuth a1, MAuth a2 =>
+      a_id a1 = a_id a2 /\ a_key a1 = a_key a2 /\ a_lat a1 = a_lat a2 /\ a_long a1 = a_long a2 /\
+      a_cap a1 = a_cap a2 /\ a_debt a1 = a_debt a2 /\ a_exp a1 = a_exp a2 /\ a_init a1 = a_init a2 /\
+      a_fee a1 = a_fee a2
+  | MMigration g1, MMigration g2 =>
+      m_equip g1 = m_equip g2 /\ m_newgca g1 = m_newgca g2 /\ m_newid g1 = m_newid g2 /\
+      m_servers g1 = m_servers g2
+  | MServer s1, MServer s2 =>
+      as_key s1 = as_key s2 /\ as_banned s1 = as_banned s2 /\ as_loc s1 = as_loc s2 /\
+      as_http s1 = as_http s2 /\ as_tcp s1 = as_tcp s2 /\ as_udp s1 = as_udp s2
+  | MStats x1, MStats x2 => s_devs x1 = s_devs x2 /\ s_tso x1 = s_tso x2
+  | MReg k1, MReg k2 => k1 = k2
+  | _, _ => False
   end.
